@@ -5,7 +5,7 @@ spec:     specs/c17_retry  RetryP (property: set of admissible remaining budgets
 binding:  harness/cmd/c17 drives the real remedies.RetryPlugin.OnResponse on a lock-step clock (policy mode) and the real Retry
           processor inside an engine built from a directory, Filter(status) -> Retry -> retry/failed (flows mode)
 """
-import json, os, re
+import json, os, re, socket
 from vlib import Broken, read_ndjson, validate_history_trace, parallel, tlc_vh_lines, split_histories
 
 SPEC = "c17_retry"
@@ -140,6 +140,31 @@ def rand_conc_history(rng):
     return h
 
 
+def rand_handler_history(rng):
+    """policy mode end to end (routing.Handler, real runner): one or several retry remedies apply to the call (endpoint and / or
+    global, also two of one endpoint), the same policies are re-applied (reload) in the middle of sequences"""
+    combos = [["global"], ["endpoint"], ["endpoint", "global"], ["endpoint", "global"], ["endpoint", "endpoint"], ["endpoint", "endpoint", "global"]]
+    rem = [{"scope": sc, "A": rng.choice([1, 2, 2, 3])} for sc in rng.choice(combos)]
+    seqs = ["s1", "s2"]
+    ranges = rng.choice([[[500, 599]], [[429, 429], [500, 599]]])
+    hot = [st for st in ST_POOL if in_cond(ranges, st)]
+    cold = [st for st in ST_POOL if not in_cond(ranges, st)]
+    h = [{"ev": "reset", "mode": "handler", "A": 0, "cd": rng.choice([0, 1, 2]), "mult": rng.choice([1, 1, 2]), "ranges": ranges, "seqs": seqs, "remedies": rem}]
+    started = set()
+    for _ in range(rng.randint(8, 20)):
+        if rng.random() < 0.2:
+            h.append({"ev": "reload"})
+            continue
+        s = rng.choice(seqs)
+        new = s not in started
+        started.add(s)
+        st = rng.choice(hot) if rng.random() < 0.88 else rng.choice(cold)
+        h.append({"ev": "resp", "s": s, "st": st, "new": new})
+        if rng.random() < 0.06:
+            started.discard(s)
+    return h
+
+
 def shrinking_cooldown_history(rng):
     """policy mode: the announced cool-down shrinks from one retry to the next (multiplier 0 or 1 with a client that comes back
     sooner), so a later state write has an earlier expiry than the entry it replaces"""
@@ -217,7 +242,9 @@ def execute(ctx, binary, scripts, tag):
     d = ctx.sub("run-" + tag)
     sp = os.path.join(d, "scripts.json")
     json.dump(scripts, open(sp, "w"))
-    ctx.run_harness(binary, ["run", sp, d])
+    so = socket.socket(); so.bind(("127.0.0.1", 0)); port = str(so.getsockname()[1]); so.close()
+    # handler histories build a policy-mode gateway whose updates talk to the proxy's admin API: a loopback fake answers there
+    ctx.run_harness(binary, ["run", sp, d], env={"HAPROXY_MANAGE_ENDPOINTS_PORT": port, "LUNAR_HEALTHCHECK_PORT": port})
     return [read_ndjson(os.path.join(d, "trace-%03d.ndjson" % i)) for i in range(len(scripts))]
 
 
@@ -228,9 +255,14 @@ def judge(ctx, binary, traces, tag, seen, scripts):
         return validate_history_trace(ctx, SPEC, "RetryTrace", ev, tag="%s%d" % (tag, i))
     def one_i(it):
         i, ev = it
-        return validate_history_trace(ctx, SPEC, "RetryITrace", ev, tag="%si%d" % (tag, i), max_rounds=3)
-    res = parallel(one, list(enumerate(traces)), n=6)
-    res_i = parallel(one_i, list(enumerate(traces)), n=6)
+        # several remedies behind the gateway's reply: judged by RetryP only (RetryI models one remedy's bookkeeping)
+        cfg, hs0 = split_histories(ev)
+        flat = [cfg] + [e for h in hs0 if h[0].get("mode") != "multi" for e in h]
+        if len(flat) == 1:
+            return 0, [], 0
+        return validate_history_trace(ctx, SPEC, "RetryITrace", flat, tag="%si%d" % (tag, i), max_rounds=3)
+    res = parallel(one, list(enumerate(traces)), n=4)
+    res_i = parallel(one_i, list(enumerate(traces)), n=4)
     for ti, ((acc, rejected, _), (acc_i, rej_i, _), ev) in enumerate(zip(res, res_i, traces)):
         _, hs = split_histories(ev)
         ctx.cov["traces_validated_against_impl"] += acc
@@ -371,6 +403,8 @@ def run(ctx):
             return shrinking_cooldown_history(ctx.rng)
         if j in (6, 9, 13):
             return rand_conc_history(ctx.rng)
+        if j in (7, 10, 14, 17, 18):
+            return rand_handler_history(ctx.rng)
         return rand_history(ctx.rng, "policy" if (i + j) % 2 == 0 else "flows", T)
     scripts = [{"histories": [pick(i, j) for j in range(nh)]} for i in range(nscripts)]
     traces = execute(ctx, binary, scripts, "rand")
